@@ -141,6 +141,13 @@ class Judge:
         chain = {'root': root, 'outer': outer, 'insts': insts, 'tok': {}, 'pmode': pmode, 'store': op.get('store', 'main'),
                  'registry': registry, 'cfgname': {ci: _cfgname(c['name'], render) for ci, c in enumerate(self.world['configs'])}}
         if set(tasks) != set(insts):
+            got_slugs = sorted(d.get('slug') for d in tasks.values())
+            exp_slugs = sorted(it.slug for it in insts.values())
+            if got_slugs != exp_slugs and len(tasks) == len(insts):
+                # same number of tasks under other group/name: the documented derivation of `<group levels>:<task name>`
+                # (class name, Meta.name, Meta.task_group, module-derived groups) - i.e. the storage layout - changed
+                self.disc('C12', 'I-layout', op['i'], 'task group/name differs from the documented derivation (directory of its results moves)',
+                          got=[s_ for s_ in got_slugs if s_ not in exp_slugs][:5], expected=[s_ for s_ in exp_slugs if s_ not in got_slugs][:5])
             self.disc('C01', 'I-tasks', op['i'], 'chain task set differs from the configuration\'s',
                       got=sorted(tasks), expected=sorted(insts))
             return None
@@ -341,7 +348,7 @@ class Judge:
     def _check_records(self, op, chain, it, name, kind, got):
         loc = self.loc(chain, it)
         lr = loc.last_run
-        if loc.state != 'complete' or lr is None or loc.tainted or not lr.get('valid'):
+        if loc.state != 'complete' or lr is None or not lr.get('valid'):
             return
         self.stats['records_checked'] += 1
         rprop = 'C12' if loc.tree else 'C18'
@@ -438,6 +445,7 @@ class Judge:
                 loc = self.loc(chain, it)
                 loc.state = 'indoubt'
                 loc.stage_exact = False
+                loc.last_run = {'valid': False}
         for ob in self.proc['objs'].values():
             ob.unknown = True
 
@@ -846,8 +854,8 @@ class Eval:
         if loc is not None:
             loc.tainted = True     # a run of it failed: what is asked of later requests is C05's "always recovers"
 
-        if loc is not None and started and loc.last_run:
-            # a failed attempt has rewritten the log (nothing is demanded of it then); the run info still belongs to the
+        if loc is not None and loc.last_run:
+            # a failed attempt (also one that failed while pulling its inputs) has rewritten the log (nothing is demanded of it then); the run info still belongs to the
             # run that produced the stored result
             loc.last_run = dict(loc.last_run, log_valid=False)
         if loc is not None and it.kind == 'dir' and started:
@@ -915,6 +923,7 @@ class Eval:
                 loc.state = 'indoubt'
                 loc.tainted = True
                 loc.stage_exact = False
+                loc.last_run = {'valid': False}
             if diskerr:
                 for ob in j.proc['objs'].values():
                     ob.unknown = True
@@ -928,6 +937,7 @@ class Eval:
             if 'ok' in res and res['ok'] != it.expected:
                 j.disc('C05', 'I-visible', op['i'], f'{name}: wrong value after an earlier disk error', got=_short(res['ok']), expected=_short(it.expected))
             for (n, it2, loc, ob) in self.touched:
+                loc.last_run = {'valid': False}
                 if 'ok' not in res:
                     loc.state = 'indoubt'
                     loc.stage_exact = False
@@ -986,6 +996,7 @@ class Eval:
             for (n, it2, loc, ob) in self.touched:
                 loc.state = 'indoubt'
                 loc.stage_exact = False
+                loc.last_run = {'valid': False}
             return
         got = res.get('ok')
         exp = it.expected
@@ -1024,6 +1035,7 @@ class Eval:
                 loc.state = 'indoubt'
                 loc.tainted = True
                 loc.stage_exact = False
+                loc.last_run = {'valid': False}
             return
         if self.unknown:
             return
